@@ -123,7 +123,9 @@ pub proof fn lemma_skip_nl_len(b: Seq<u8>)
     it = mp.impl_fn(PM, "iter")
     it.ret("r")
     it.props_all = ["C19"]
-    it.contract("    ensures /*@L:iter_starts_at_source:C19*/ r.slice@ == self.source@,")
+    # the iterator yields the item stream of the source: whether `iter` already skips leading line terminators (they carry no item) is not pinned
+    it.contract("    ensures /*@L:iter_yields_the_item_stream_of_the_source:C19*/ records(r.slice@) == records(self.source@), r.slice@.len() <= self.source@.len(),")
+    it.body_start("proof { lemma_skip_nl_len(self.source@); }\n")
     u.emit(it)
 
     h = mp.impl_fn(PM, "has_line_info")
